@@ -365,6 +365,17 @@ def execute(sc, sched: Choices, cls, cfg):
     elif not _close(got[1], ref[1], tol):
         add("numpy", "value_diff", ref[1], got[1])
 
+    # ---- the same call again after a call in which a fault fired: nothing of the failed call may stick ----
+    if fired:
+        ctx2 = executor.SimContext(sched=sched, workers=sc["workers"], cpu_count=sc["cpu"])
+        with executor.use_context(ctx2):
+            again = _outcome(lambda: _call(func, arg, sc["n_threads"], ddof, axis))
+        rec["probes"].append("retry_after_fault")
+        if again[0] == "raise":
+            add("retry_after_fault", "raises_vs_returns", ref[1], f"{again[1]}: {again[2]}", exc=again[1])
+        elif not _close(again[1], ref[1], tol):
+            add("retry_after_fault", "value_diff", ref[1], again[1])
+
     # ---- relational arm: same array, one thread, no pool ----
     if kind != "real" and sc["n_threads"] != 1:
         ctx1 = executor.SimContext(sched=sched, workers=None, cpu_count=4, fault=None)
